@@ -304,14 +304,15 @@ theorem deepText_textNode (t : Str) (as : List (Str × Str)) (s : Str) :
 
 /-! ### what a field writes -/
 
-theorem encF_attrs (f : Field) (v : Val) : ∀ kv ∈ (encF f v).1, f.reads kv.1 = true := by
+theorem encF_attrs (f : Field) (v : Val) : ∀ kv ∈ (encF f v).1, f.writes kv.1 = true := by
   intro kv h
   cases f with
   | attr name ty omitD =>
     simp only [encF] at h
     split at h
     · simp at h
-    · simp at h; subst h; simp [Field.reads]
+    · simp at h; subst h; simp [Field.writes]
+  | attrReadOnly name ty => simp [encF] at h
   | text ty => simp [encF] at h
   | enumChild ns decl anyNs names m =>
     simp only [encF] at h
@@ -326,7 +327,7 @@ theorem encF_attrs (f : Field) (v : Val) : ∀ kv ∈ (encF f v).1, f.reads kv.1
     split at h <;> simp at h
 
 theorem encFs_attrs : ∀ (fs : List Field) (vs : List Val),
-    ∀ kv ∈ (encFs fs vs).1, ∃ f ∈ fs, f.reads kv.1 = true
+    ∀ kv ∈ (encFs fs vs).1, ∃ f ∈ fs, f.writes kv.1 = true
   | [], _, kv, h => by simp [encFs] at h
   | _ :: _, [], kv, h => by simp [encFs] at h
   | f :: fs, v :: vs, kv, h => by
@@ -355,7 +356,11 @@ theorem wfF_reads_xmlns {pns : Str} {f : Field} (h : wfF pns f = true) : f.reads
   | attr name ty omitD =>
     simp only [wfF, Bool.and_eq_true, bne_iff_ne, ne_eq] at h
     simp [Field.reads, h.1]
+  | attrReadOnly name ty => simp [wfF] at h
   | _ => rfl
+
+theorem writes_reads {f : Field} {k : Str} (h : f.writes k = true) : f.reads k = true := by
+  cases f <;> simp_all [Field.writes, Field.reads]
 
 theorem encFs_no_xmlns {pns : Str} {fs : List Field} (vs : List Val) (h : wfFs pns fs = true) :
     ∀ kv ∈ (encFs fs vs).1, ¬ kv.1 = xmlnsKey := by
@@ -363,7 +368,8 @@ theorem encFs_no_xmlns {pns : Str} {fs : List Field} (vs : List Val) (h : wfFs p
   obtain ⟨f, hf, hr⟩ := encFs_attrs fs vs kv hkv
   have := wfF_reads_xmlns (wfFs_mem h f hf)
   rw [e] at hr
-  simp [this] at hr
+  have hr' := writes_reads hr
+  simp [this] at hr'
 
 def Field.isText : Field → Bool
   | .text _ => true
@@ -375,6 +381,7 @@ theorem encF_kids (pns : Str) (f : Field) (v : Val) (hw : wfF pns f = true) (hc 
   intro k hk
   cases f with
   | attr name ty omitD => simp [encF] at hk
+  | attrReadOnly name ty => simp [encF] at hk
   | text ty =>
     left
     simp only [encF, textNode] at hk
@@ -427,20 +434,24 @@ theorem encF_kids (pns : Str) (f : Field) (v : Val) (hw : wfF pns f = true) (hc 
 
 /-! ### independence of fields -/
 
-theorem indep_reads (f g : Field) (v : Val) (hi : indep f g = true) :
-    ∀ kv ∈ (encF g v).1, f.reads kv.1 = false := by
-  intro kv hkv
-  have hg := encF_attrs g v kv hkv
+theorem writes_attr {g : Field} {k : Str} (h : g.writes k = true) : ∃ ty o, g = .attr k ty o := by
+  cases g <;> simp_all [Field.writes]
+
+theorem indep_writes_reads (f g : Field) (hi : indep f g = true) (k : Str) (hw : g.writes k = true) :
+    f.reads k = false := by
+  obtain ⟨ty', o', rfl⟩ := writes_attr hw
   cases f with
   | attr n ty o =>
-    cases g with
-    | attr n' ty' o' =>
-      simp only [indep, bne_iff_ne, ne_eq] at hi
-      simp only [Field.reads, beq_iff_eq] at hg
-      subst hg
-      simp [Field.reads, hi]
-    | _ => simp [Field.reads] at hg
+    simp only [indep, bne_iff_ne, ne_eq] at hi
+    simp [Field.reads, hi]
+  | attrReadOnly n ty =>
+    simp only [indep, bne_iff_ne, ne_eq] at hi
+    simp [Field.reads, hi]
   | _ => rfl
+
+theorem indep_reads (f g : Field) (v : Val) (hi : indep f g = true) :
+    ∀ kv ∈ (encF g v).1, f.reads kv.1 = false :=
+  fun kv hkv => indep_writes_reads f g hi kv.1 (encF_attrs g v kv hkv)
 
 theorem heads_all_sees (pns : Str) (g : Field) (v : Val) (hwg : wfF pns g = true)
     (hcg : canonF g v = true) (hgt : g.isText = false) (p : Str × Str → Bool)
@@ -458,6 +469,7 @@ theorem indep_sees (pns : Str) (f g : Field) (v : Val) (hi : indep f g = true)
   intro k hk
   cases f with
   | attr n ty o => rfl
+  | attrReadOnly n ty => rfl
   | text ty =>
     cases g <;> simp_all [indep, Field.emitsKids, encF]
   | enumChild ns decl anyNs names m =>
@@ -545,6 +557,7 @@ theorem decF_encF : ∀ (f : Field) (pns t : Str) (P R : List (Str × Str)) (Q S
       exact FTy.parse_nil_of_default ty v hw.2 hc hcond.2
     · rw [List.singleton_append, attr_cons_self]
       exact FTy.parse_show ty v hw.2 hc
+  | .attrReadOnly name ty, pns, t, P, R, Q, S, v, hw, hc, _, _, _, _ => by simp [wfF] at hw
   | .text ty, pns, t, P, R, Q, S, v, hw, hc, _, _, hQ, hS => by
     simp only [wfF] at hw
     simp only [canonF] at hc
@@ -679,20 +692,7 @@ theorem decFs_encFs : ∀ (fs : List Field) (pns t : Str) (P : List (Str × Str)
       · exact fun kv hkv => hP kv hkv f (by simp)
       · intro kv hkv
         obtain ⟨g, hg, hr⟩ := encFs_attrs fs vs kv hkv
-        cases hfr : f.reads kv.1 with
-        | false => rfl
-        | true =>
-          exfalso
-          have hi := (hind g hg).1
-          cases f with
-          | attr n ty o =>
-            cases g with
-            | attr n' ty' o' =>
-              simp only [indep, bne_iff_ne, ne_eq] at hi
-              simp only [Field.reads, beq_iff_eq] at hfr hr
-              exact hi (hfr.trans hr.symm)
-            | _ => simp [Field.reads] at hr
-          | _ => simp [Field.reads] at hfr
+        exact indep_writes_reads f g (hind g hg).1 kv.1 hr
       · exact fun k hk => hQ k hk f (by simp)
       · intro k hk
         exact encFs_sees pns f fs vs hwfs hc.2 (fun g hg => (hind g hg).1) k hk
@@ -718,6 +718,7 @@ end
 mutual
 theorem canonF_decF : ∀ (f : Field) (pns : Str) (x : Node), canonF f (decF pns x f) = true
   | .attr name ty o, pns, x => by simp only [decF, canonF, FTy.canon_parse]
+  | .attrReadOnly name ty, pns, x => by simp only [decF, canonF, FTy.canon_parse]
   | .text ty, pns, x => by simp only [decF, canonF, FTy.canon_parse]
   | .enumChild ns decl anyNs names m, pns, x => by
     simp only [decF]
